@@ -1597,3 +1597,41 @@ def sk_check_random_state(I, args, kwargs):
     o = Opaque("RandomState", prov=("check_random_state", args[0] if args else None))
     o.is_rng = True
     return o
+
+
+@method("SObj", "object.__init__")
+def _ext_base_init(I, recv, args, kwargs):
+    """__init__ of a base class outside the repo reached through super(): object.__init__ does nothing; a scikit-learn base
+    estimator stores every keyword argument under its own name (the sklearn constructor convention, assumed)"""
+    if args:
+        raise Undecided("external base-class __init__ with positional arguments")
+    if kwargs:
+        USED.add("external (sklearn) base-class __init__(**kw): stores each keyword argument under its own name (assumed)")
+    for k_, v in kwargs.items():
+        I.setattr(recv, k_, v)
+    return None
+
+
+for _p in ("sklearn.tree.DecisionTreeClassifier", "sklearn.tree.DecisionTreeRegressor", "sklearn.decomposition.PCA",
+           "sklearn.preprocessing.LabelEncoder", "sklearn.linear_model.LogisticRegression", "sklearn.preprocessing.StandardScaler"):
+    def _mk3(p):
+        def f(I, args, kwargs):
+            o = Opaque(p.split(".")[-1])
+            o.ctor = (p, list(args), dict(kwargs))
+            return o
+        return f
+    if _p not in LIB:
+        LIB[_p] = _mk3(_p)
+
+
+@lib("math.sqrt")
+def _math_sqrt(I, args, kwargs):
+    from .libnp import _sqrt_fun
+    x = args[0]
+    if not is_sym(x):
+        import math as _m
+        r = _m.isqrt(int(x)) if float(x).is_integer() and x >= 0 else None
+        if r is not None and r * r == int(x):
+            return r
+    USED.add("math.sqrt: uninterpreted real function (exact for perfect squares)")
+    return _sqrt_fun(I.ctx)(ops.as_real(x))
